@@ -966,6 +966,8 @@ func r01_9(c *Ctx, rule string) {
 		ok := isFieldLoad(a[0], "fsutil.lazyFileWriter.dest") && c.DerivesFrom(a[1], isModeLoad, 3)
 		c.R.Check(ok, rule, c.siteName(call)+"/args", c.pos(call), "Chmod(dest, recorded mode)", "Close does not restore the recorded mode on the destination")
 	}
+	// Close closes what Write opened
+	c.R.Floor(rule, "closes of the opened file in lazyFileWriter.Close", len(c.P.CallsTo(cl, "(*os.File).Close")), 1)
 	// the result of Close reports a failed close or a failed restore
 	bad := 0
 	ex := c.explorer(cl)
